@@ -74,6 +74,25 @@ func runC12(c *Ctx, r *Report) {
 						}
 					}
 					r.check(okP, "C12-R1-paired-update", key, pos, "followed by lastTimeOffset = hdr & 0x1F", "the compressed update of timestamp is not followed by lastTimeOffset = hdr & mask: the next compressed record advances from a stale offset")
+					// every compressed record with a reference advances the reference: the store may be
+					// control-dependent only on `compressed`, `timestamp == 0` and the missing-definition test
+					ci := computePostDom(fn)
+					badCtl := ""
+					for _, a := range fn.Blocks {
+						if len(a.Instrs) == 0 {
+							continue
+						}
+						ifi, ok := a.Instrs[len(a.Instrs)-1].(*ssa.If)
+						if !ok || !ci.controlled(a)[b] {
+							continue
+						}
+						cp := pathOf(ifi.Cond)
+						okCond := cp == "compressed" || cp == "(*d.timestamp==0)" || cp == "(*d.timestamp!=0)" || strings.Contains(cp, ".defmsgs[") && strings.HasSuffix(cp, "==nil)")
+						if !okCond {
+							badCtl = cp
+						}
+					}
+					r.check(badCtl == "", "C12-R3-guards", key+"/advances-every-record", pos, "every compressed-timestamp record with a reference advances the reference (update depends only on `compressed` and `timestamp != 0`)", "the compressed update of the reference time additionally depends on "+badCtl+": compressed records for which that condition fails do not advance the reference, so offsets are not accumulated over consecutive compressed records (a 5-bit rollover across such a record is lost)")
 					// message field 253 gets decodeDateTime(d.timestamp)
 					okSet := false
 					for _, ci := range allCalls(fn) {
